@@ -51,12 +51,13 @@ def run_pipeline(case, col, judge=True):
     if case.error:
         out.append((bucket(case.error), case.error))
         return out, None
-    if case.oversize:
-        return out, None
+    # the depth bounds are judged on aborted (oversize) cases too: the counters are valid up to the abort
     if c["max_generator_depth"] > 2 * md + 40:
         out.append(('C18/work/generator-depth-exceeds-2d+40', dict(c, max_depth=md)))
     if c['max_generate_expr_nesting'] > 4 * md + 24:
         out.append(('C18/work/generate_expr-nesting-exceeds-4d+24', dict(c, max_depth=md)))
+    if case.oversize:
+        return out, None
     prog = case.program
     texts = {}
     info = {'reached': 'G'}
